@@ -319,7 +319,7 @@ def mutate(rng, kind, d):
             return sanitize_objecttype(d)
         if r < 0.75:
             cur = d['regexHard']
-            d['regexHard'] = rng.choice([None, 'a', 'a|b', 'a|b|c', 'ab', 'b|a'] if True else [])
+            d['regexHard'] = rng.choice([None, 'a', 'a|b', 'a|b|c', 'ab', 'b|a', '', 'a|'])
             if d['regexHard'] == cur:
                 d['regexHard'] = 'a' if cur != 'a' else 'a|b'
         else:
@@ -365,9 +365,13 @@ def mutate(rng, kind, d):
             d['objectType'] = 'o.int' if d['objectType'] == 'o.str' else 'o.str'
         elif r < 0.5:
             d['merge'] = rng.choice([m for m in ['any', 'add', 'set', 'match'] if m != d['merge']])
-        elif r < 0.62:
+        elif r < 0.59:
             d['optional'] = not d['optional']
+        elif r < 0.68:
+            d['multivalued'] = not d['multivalued']
         elif r < 0.74:
+            # both cardinality flags at once (the two checks are independent: one may improve while the other degrades)
+            d['optional'] = not d['optional']
             d['multivalued'] = not d['multivalued']
         elif r < 0.87:
             have = [a['concept'] for a in d['assocs']]
